@@ -15,21 +15,24 @@ Definition no_infer (o : n_opts) : n_opts :=
 Lemma core_no_infer e o original url : normalize_core e (no_infer o) original url = normalize_core e o original url.
 Proof. reflexivity. Qed.
 
-(* C04: redirection inference is exactly a pre-step *)
+(* C04: redirection inference is exactly a pre-step -- for every answer, "returned unchanged" included *)
+Theorem normalize_is_prestep_full e o u t :
+  infer_redirection_o o = true -> infer_redirection e u = Ok t ->
+  normalize_split e o u = normalize_split e (no_infer o) t.
+Proof.
+  intros Hi Ht. unfold normalize_split. rewrite Hi, Ht. cbn [bind infer_redirection_o no_infer]. reflexivity.
+Qed.
+
 Theorem normalize_is_prestep e o u t r hp :
   infer_redirection_o o = true -> infer_redirection e u = Ok t ->
   normalize_split e o u = Ok (NSplit r hp) ->
   normalize_split e (no_infer o) t = Ok (NSplit r hp).
-Proof.
-  intros Hi Ht. unfold normalize_split. rewrite Hi, Ht. cbn [bind infer_redirection_o no_infer].
-  (* the core only uses `original` in the NOriginal answer *)
-  unfold normalize_core, normalize_parsed. cbv zeta.
-  destruct (urlsplit e _) as [sp|[]]; try discriminate; try (intros H; exact H).
-  destruct (port sp) as [prt|[]]; try discriminate; try (intros H; exact H).
-Qed.
+Proof. intros Hi Ht H. rewrite <- (normalize_is_prestep_full e o u t Hi Ht). exact H. Qed.
 
-(* C05: an unparseable url is returned unchanged: whenever the answer is "original", it is the argument *)
-Theorem normalize_original e o u s : normalize_split e o u = Ok (NOriginal s) -> s = u.
+(* C05: an unparseable url is returned unchanged: whenever the answer is "original", it is the argument, once its
+   inferred redirection (if any, and if asked) has been followed *)
+Theorem normalize_original e o u s : normalize_split e o u = Ok (NOriginal s) ->
+  (if infer_redirection_o o then infer_redirection e u else Ok u) = Ok s.
 Proof.
   unfold normalize_split. destruct (if infer_redirection_o o then infer_redirection e u else Ok u) as [t|x]; cbn [bind]; [|discriminate].
   unfold normalize_core, normalize_parsed. cbv zeta.
